@@ -84,6 +84,8 @@ def o_comb(kind: str, seq: str, npos: int, glob: bool, none_size: bool, size: in
         back = parse(t)
         if D.norm_empty(D.dump(back)) != D.norm_empty(_exp(w)):
             return _fail(why="wrapper result does not parse to the expected annotation", text=t)
+    if getattr(CB, kind)(a.serialize(), None if none_size else size) != texts:
+        return _fail(why="wrapper: string input gives other results than the annotation object", kind=kind)
     if D.dump(a) != before:
         return _fail(why="the expanded peptide object is no longer the peptide it was", kind=kind, diff=D.diff(D.dump(a), before))
     # a second expansion of the same object, and one of the other kinds, still see the whole peptide
